@@ -50,7 +50,7 @@ CONFIGS = {
     "MC_Bridge": dict(CfgSet="CloseCfgs", MaxWrites=2, Bridgers='{"B"}', Closers='{"A"}', MaxHandles=1, MaxCtr=1),
     # C10: adversary frames towards A while a well-behaved stream runs
     "MC_Adv_q": dict(CfgSet="TinyCfg", MaxWrites=1, AdvMsgs="AdvSet", MaxAdv=2, MaxHandles=2, MaxCtr=1),
-    "MC_Adv": dict(CfgSet="TinyCfg", MaxWrites=1, AdvMsgs="AdvSet", MaxAdv=2, MaxHandles=2, MaxCtr=1, Closers='{"A"}'),
+    "MC_Adv": dict(CfgSet="TinyCfg", MaxWrites=1, AdvMsgs="AdvSet", MaxAdv=3, MaxHandles=2, MaxCtr=1),
 }
 
 
